@@ -475,7 +475,7 @@ func init() {
 		us = append(us, bigUnits(sp.Messages, tier, 80, wellFormed)...)
 		// decoding the library's own encodings into a receiver that is used again and again
 		us = append(us, reuseUnits(sp, "receive-buffer", 25, 500)...)
-		us = append(us, coldUnit("nas.Message", "encode", "decode"))
+		us = append(us, coldUnits(tier, "nas.Message", "encode", "decode")...)
 		return us
 	}
 	core.Register(p)
@@ -610,7 +610,7 @@ func init() {
 			}})
 		}
 		us = append(us, reuseUnits(sp, "receive-buffer", 40, 800)...)
-		us = append(us, coldUnit("nas.Message", "decode"))
+		us = append(us, coldUnits(tier, "nas.Message", "decode")...)
 		us = append(us, bigUnits(msgs, tier, 60, func(c *core.Ctx, d *domainPDU, i int) {
 			k := &core.Case{Oracle: "fixedpoint", Target: "nas.Message.PlainNasDecode", B: [][]byte{d.B}, I: []int64{b2i(d.Canon)}}
 			c.Do(k)
